@@ -766,7 +766,8 @@ class Process(StateMachine, persistence.Savable, metaclass=ProcessStateMachineMe
             self.logger.info('Process<%s>: Broadcasting state change: %s', self.pid, subject)
             try:
                 self._communicator.broadcast_send(body=None, sender=self.pid, subject=subject)
-            except (ConnectionClosed, ChannelInvalidStateError):
+            except (ConnectionClosed, ChannelInvalidStateError, kiwipy.CommunicatorClosed):
+                # (``CommunicatorClosed``: the communicator itself was closed while the process is still alive)
                 message = 'Process<%s>: no connection available to broadcast state change from %s to %s'
                 self.logger.warning(message, self.pid, from_label, to_label)
             except kiwipy.TimeoutError:
